@@ -320,6 +320,7 @@ Not decided: the folding of FROM set expressions (unions/intersections) and seri
 
     // ---- set operators ----
     ops(m, ctx);
+    fold_union(m, ctx);
     // ---- references inside FROM are visited by the linker (shared with C09.sym) ----
     crate::rules::c09::constraint_pairs(m, ctx, "C15.link");
 
@@ -441,6 +442,87 @@ fn denotation(v: &Val) -> Result<std::collections::BTreeSet<char>, String> {
         }
     }
     Ok(out)
+}
+
+/// C15.fold: the union of a string with a character range inside one constraint (`SIZE (2) ^ FROM ("a" | "b".."d")` is folded
+/// by fold_constraint_set, which hands string/range pairs to union_single_and_range). That fn is evaluated on pairs over a
+/// small alphabet: the result denotes exactly the characters of the string plus the characters of the range, both ends
+/// included, whether or not the union is contiguous.
+fn fold_union(m: &Model, ctx: &mut Ctx) {
+    use crate::eval::{new_set, Env};
+    let Some(f) = m.fns.iter().find(|f| f.name == "union_single_and_range" && f.module.contains("per_visible")) else {
+        ctx.fail_closed("C15.fold", "anchor not found: union_single_and_range");
+        return;
+    };
+    ctx.func(&f.key);
+    let consts = const_resolver(m);
+    // the alphabet a..z with indices 0..25
+    let idx = |c: char| (c as u8 - b'a') as i128;
+    let hook = |_: &Evaluator, name: &str, a: &[Val]| -> Option<Result<Val, String>> {
+        match name {
+            "std::collections::BTreeSet::new" | "BTreeSet::new" | "BTreeSet::default" => Some(Ok(new_set())),
+            "find_string_index" => match a.first() { Some(Val::Str(s)) => Some(Ok(Val::Ctor("Ok".into(), vec![Val::int(s.chars().next().map(|c| (c as u8 - b'a') as i128).unwrap_or(0))], BTreeMap::new()))), _ => None },
+            "find_char_index" => match a.get(1) { Some(Val::Char(c)) => Some(Ok(Val::Ctor("Ok".into(), vec![Val::int((*c as u8 - b'a') as i128)], BTreeMap::new()))), _ => None },
+            ".get" => match (a.first(), a.get(1)) {
+                (Some(Val::Opaque(s)), Some(Val::Int { v, .. })) if s == "chars" && (0..26).contains(v) => Some(Ok(Val::some(Val::Char((b'a' + *v as u8) as char)))),
+                (Some(Val::Opaque(s)), Some(_)) if s == "chars" => Some(Ok(Val::none())),
+                _ => None,
+            },
+            _ => None,
+        }
+    };
+    let ev = Evaluator { consts: &consts, call_hook: &hook, inline: None };
+    let params: Vec<String> = f.sig.inputs.iter().filter_map(|a| match a { syn::FnArg::Typed(t) => Some(tok(&t.pat)), _ => None }).collect();
+    if params.len() != 7 {
+        ctx.fail_closed("C15.fold", "union_single_and_range: expected (value, min, char_set, max, x1, x2, range_constraint)");
+        return;
+    }
+    let st = |s: &str| Val::Ctor("String".into(), vec![Val::Str(s.into())], BTreeMap::new());
+    let _ = idx;
+    for (single, lo, hi) in [("a", "b", "d"), ("d", "a", "c"), ("x", "a", "f"), ("ax", "c", "e"), ("c", "a", "b"), ("b", "a", "c"), ("", "a", "c"), ("a", "c", "c")] {
+        let key = format!("\"{}\" | \"{}\"..\"{}\"", single, lo, hi);
+        ctx.oblige("C15.fold", &key, true);
+        let mut env = Env::new();
+        env.insert(params[0].clone(), st(single));
+        env.insert(params[1].clone(), Val::some(st(lo)));
+        env.insert(params[2].clone(), Val::some(Val::Opaque("chars".into())));
+        env.insert(params[3].clone(), Val::some(st(hi)));
+        env.insert(params[4].clone(), Val::Bool(false));
+        env.insert(params[5].clone(), Val::Bool(false));
+        env.insert(params[6].clone(), Val::Bool(false));
+        let want: std::collections::BTreeSet<char> = single.chars().chain((lo.chars().next().unwrap()..=hi.chars().next().unwrap()).into_iter()).collect();
+        let got = ev.eval_fn_body(&f.block, &mut env).and_then(|r| match r {
+            Val::Ctor(ok, p, _) if ok == "Ok" => match p.first() {
+                Some(Val::Ctor(s, q, _)) if s == "Some" => match q.first() {
+                    Some(Val::Ctor(k, _, fl)) if k == "ValueRange" => {
+                        let g = |n: &str| match fl.get(n) { Some(Val::Ctor(_, p, _)) => p.first().and_then(|v| match v { Val::Ctor(_, p2, _) => match p2.first() { Some(Val::Str(s)) => s.chars().next(), _ => None }, _ => None }), _ => None };
+                        match (g("min"), g("max")) {
+                            (Some(a), Some(b)) => Ok((a..=b).collect::<std::collections::BTreeSet<char>>()),
+                            o => Err(format!("range ends {:?}", o)),
+                        }
+                    }
+                    Some(Val::Ctor(k, _, fl)) if k == "SingleValue" => match fl.get("value") {
+                        Some(Val::Ctor(_, p, _)) => match p.first() { Some(Val::Str(s)) => Ok(s.chars().collect()), o => Err(format!("single value {:?}", o.map(|x| x.show()))) },
+                        o => Err(format!("single value {:?}", o.map(|x| x.show()))),
+                    },
+                    o => Err(format!("result {:?}", o.map(|x| x.show()))),
+                },
+                // no PER-visible constraint: nothing to compare (only legitimate for the empty union)
+                Some(Val::Ctor(s, _, _)) if s == "None" => Ok(want.clone()),
+                o => Err(format!("result {:?}", o.map(|x| x.show()))),
+            },
+            o => Err(format!("result {}", o.show())),
+        });
+        match got {
+            Ok(g) => {
+                if g != want {
+                    ctx.violate("C15.fold", "string-union-range", &f.file, f.line,
+                        &format!("{} (folded inside one constraint, e.g. `SIZE (2) ^ FROM ({})`) denotes {:?}; it is {:?}", key, key, g.iter().collect::<String>(), want.iter().collect::<String>()));
+                }
+            }
+            Err(e) => ctx.fail_closed("C15.fold", &format!("[{}]: {}", key, e)),
+        }
+    }
 }
 
 /// C15.ops: a set operation inside FROM, and serially applied constraints, denote what their operator says.
